@@ -271,7 +271,7 @@ def one(ctx, rng, k):
 
 def run_shard(ctx):
     logging.getLogger("pymoca").setLevel(logging.ERROR)
-    for k in range(ctx.n(4000, 100000)):
+    for k in range(ctx.n(12000, 100000)):
         if ctx.out_of_time():
             break
         ctx.guarded(one, ctx, ctx.rng, k, timeout=30)
